@@ -50,14 +50,19 @@ func init() {
 				outs = append(outs, resErr(errClass(err, [2]string{"previousOutcome.Definitions is invalid", "refuse"}), err))
 				continue
 			}
+			undecodable := ""
+			hb := ob
 			dec, err := hp.p.ObservationCodec.Decode(ob)
 			if err != nil {
-				return J{"harness-error": "own observation does not decode: " + err.Error()}
-			}
-			dec.UnixTimestampNanoseconds = jU64(jget(r, "ts"))
-			hb, err := hp.p.ObservationCodec.Encode(dec)
-			if err != nil {
-				return J{"harness-error": err.Error()}
+				// what a correct node produced is refused by the decoder every correct node uses: the round goes on
+				// without the correct observations (and is judged accordingly)
+				undecodable = "the observation a correct node produced does not decode: " + err.Error()
+			} else {
+				dec.UnixTimestampNanoseconds = jU64(jget(r, "ts"))
+				hb, err = hp.p.ObservationCodec.Encode(dec)
+				if err != nil {
+					return J{"harness-error": err.Error()}
+				}
 			}
 			nh := jInt(jget(r, "nHonest"))
 			faulty, err := hp.encodeObs(jget(r, "faulty"))
@@ -76,7 +81,7 @@ func init() {
 					faultyRejected = append(faultyRejected, firstLines(verr.Error(), 2))
 				}
 			}
-			rejected := ""
+			rejected := undecodable
 			if verr := hp.p.ValidateObservation(context.Background(), outctx, nil, types.AttributedObservation{Observation: hb, Observer: 0}); verr != nil {
 				rejected = verr.Error()
 			}
@@ -89,6 +94,9 @@ func init() {
 			if err != nil {
 				e := resErr(errClass(err, outcomeErrClasses...), err)
 				e["_faulty_rejected"] = faultyRejected
+				if rejected != "" {
+					e["_honest_rejected"] = rejected
+				}
 				outs = append(outs, e)
 				continue
 			}
@@ -329,6 +337,39 @@ func genC14(g *G) {
 		start := map[int]J{1: w.smallDef(1, 1), 5: w.smallDef(3, 1)}
 		target := map[int]J{1: many(1), 2: many(2), 3: w.smallDef(7000, 2)}
 		emit(w, start, target, "shared-streams-two-aggregators")
+	}
+	{
+		// four wide channels that share almost all their streams: 4 × 2 602 mentions in ONE round's votes (more than
+		// any limit on DISTINCT streams), 2 608 distinct streams: within every limit, must converge in one round
+		w := newWorld(g)
+		w.hasPred = false
+		wide := func(k int) J {
+			st := make([]any, 0, 2602)
+			for i := 1; i <= 2600; i++ {
+				st = append(st, J{"sid": S(i), "agg": "1"})
+			}
+			st = append(st, J{"sid": S(9000 + 2*k), "agg": "1"}, J{"sid": S(9001 + 2*k), "agg": "1"})
+			return J{"format": "2", "streams": st, "opts": ""}
+		}
+		target := map[int]J{}
+		for id := 1; id <= 4; id++ {
+			target[id] = wide(id)
+		}
+		emit(w, map[int]J{9: w.smallDef(1, 1)}, target, "overlapping-wide-channels")
+	}
+	{
+		// ten channels whose options are 150 KB each (long ABI schemas): two rounds of five, an agreed outcome of
+		// about 1.5 MB — beyond the size limit of an OBSERVATION, far below that of an outcome; must converge
+		w := newWorld(g)
+		w.hasPred = false
+		w.version, w.interval = 1, 1
+		target := map[int]J{}
+		for id := 1; id <= 10; id++ {
+			b := make([]byte, 150_000)
+			g.R.Read(b)
+			target[id] = J{"format": "2", "streams": []any{J{"sid": S(id), "agg": "1"}}, "opts": hexs(b)}
+		}
+		emit(w, map[int]J{}, target, "outcome-beyond-one-megabyte")
 	}
 	for _, below := range []int{0, 3} {
 		// rotation at (or just below) the cap: every pending update is a brand-new id, so the additions of a
